@@ -60,6 +60,29 @@ def on_create_and_on_data_contracts():
                   "and none is accepted at the joined-circuit limit")
 
     # ---------------------------------------------------------------------------------------------------------------------
+    # a cell that names one of our circuits but does not decrypt under that circuit's keys (anybody can send one) is dropped WITHOUT a
+    # trace: neither the liveness clock nor the traffic counters of the circuit move (they feed the sweep that tears circuits down)
+    EPT = OBJ(f"{CR}::PythonCryptoEndpoint", prefix=BYTES_FIXED(22), logger=LOGGER(), endpoint=EFFECT("raw", send={}),
+              settings=OBJ(f"{TC}::TunnelSettings", max_relay_early=INT),
+              circuits=DICTOBJ(INT, CIRCUIT("[hc1]"), where="v.circuit_id == k"), relays=DICTOBJ(INT, RELAY(), where="True"),
+              exit_sockets=DICTOBJ(INT, ROUTING(f"{ES}::TunnelExitSocket", hop=HOP()), where="v.circuit_id == k"),
+              tunnel_community=OPT(EFFECT("tc", on_packet={})))
+    contract(f"{CR}::PythonCryptoEndpoint.process_cell", "process_cell.undecryptable-cell-leaves-no-trace",
+             vars={"hc1": HOP(), "self": EPT, "cid": RANGE(0, 2 ** 32 - 1), "re": BOOL, "msg": BYTES, "src": ADDRESS,
+                   "data": EXPR("self.prefix + be(0, 1) + be(cid, 4) + be(0, 1) + be(ite(re, 1, 0), 1) + msg")},
+             requires=["cid not in self.relays", "cid not in self.exit_sockets", "cid in self.circuits",
+                       "self.circuits[cid]._hs_session_keys is None",
+                       "not uf_bool('aead_ok', self.circuits[cid]._hops[0].keys.kid, 1, msg)"],
+             call="self.process_cell(src, data)", raises=None,
+             ensures=["self.circuits[cid].bytes_down == old(self.circuits[cid].bytes_down)",
+                      "self.circuits[cid].last_activity == old(self.circuits[cid].last_activity)",
+                      "len(calls('tc.on_packet')) == 0 and len(calls('raw.send')) == 0"],
+             ensures_raise=["self.circuits[cid].bytes_down == old(self.circuits[cid].bytes_down)",
+                            "self.circuits[cid].last_activity == old(self.circuits[cid].last_activity)",
+                            "len(calls('tc.on_packet')) == 0 and len(calls('raw.send')) == 0"],
+             note="traffic and liveness of a circuit are only ever credited for cells authenticated by that circuit's keys")
+
+    # ---------------------------------------------------------------------------------------------------------------------
     # joining: the new exit entry is bound to the node the CREATE actually came from (the key in a CREATE is not authenticated: whatever
     # the peer graph knows about that key - another address, a stale one - must not decide where this circuit's replies are sent)
     KNOWN = PEER_OBJ()
